@@ -201,7 +201,18 @@ pub fn gen_c03(rng: &Rng, tier: Tier) -> ReadScn {
     }
     let (input, class) = any_input(rng, fmt, max_recs, max_noise);
     let n_cfg = rng.range(2, 4);
-    let cfgs: Vec<Cfg> = (0..n_cfg).map(|_| gen_cfg(rng, &input, true)).collect();
+    let mut cfgs: Vec<Cfg> = (0..n_cfg).map(|_| gen_cfg(rng, &input, true)).collect();
+    let mut anchored = false;
+    if rng.chance(1, 3) {
+        // anchor: one configuration in which nothing ever straddles the buffer end (the whole input
+        // fits and arrives in one piece), so a divergence that needs "complete in the buffer" on one
+        // side and "cut" on the other does not depend on luck with the drawn capacities
+        cfgs[0].cap = input.len() + rng.range(1, 4);
+        cfgs[0].script = vec![];
+        cfgs[0].cuts = vec![];
+        cfgs[0].intr_burst = None;
+        anchored = true;
+    }
     let m = model::build(fmt, &input); // only used to size the history
     let n = m.items.len();
     let ops = match rng.below(4) {
@@ -230,7 +241,8 @@ pub fn gen_c03(rng: &Rng, tier: Tier) -> ReadScn {
             o
         }
     };
-    ReadScn { fmt, input, cfgs, ops, mon: Monitors::default(), profile: class.into() }
+    let profile = if anchored { format!("{}/anchored", class) } else { class.to_string() };
+    ReadScn { fmt, input, cfgs, ops, mon: Monitors::default(), profile }
 }
 
 pub fn run_c03(scn: &ReadScn, st: &mut Stats) -> RunResult {
@@ -245,6 +257,9 @@ pub fn run_c03(scn: &ReadScn, st: &mut Stats) -> RunResult {
         st.set_insert("nontrivial", vcore::mix(h, scn.input.len() as u64));
     }
     st.count("step.configurations_compared", scn.cfgs.len() as u64);
+    if scn.profile.ends_with("/anchored") {
+        st.probe("probe.whole_input_anchor");
+    }
     let mut v: Vec<Violation> = vec![];
     let has_plain_set = scn.ops.iter().any(|o| matches!(o, Op::ReadSet(_)));
     let a = &logs[0];
